@@ -10,10 +10,11 @@ import shutil
 import subprocess
 import tempfile
 
-MODULES = ["error", "format", "token", "term", "de_bruijn", "evaluator", "parser"]
+MODULES = ["error", "format", "token", "term", "de_bruijn", "evaluator", "normalizer", "equality", "unifier", "parser"]
 TARGET_OF = {"step_strict": "step", "evaluate": "step"}
 KNOWN = {"signed_shift", "unsigned_shift", "open", "free_variables", "is_value", "step",
-         "reassociate_applications", "reassociate_products_and_quotients", "reassociate_sums_and_differences", "packrat_complete", "resolve", "pipeline"}
+         "reassociate_applications", "reassociate_products_and_quotients", "reassociate_sums_and_differences", "packrat_complete", "resolve", "pipeline",
+         "normalize_weak_head", "syntactically_equal", "unify"}
 PACKRAT_COUNT = 25000   # each case runs an exhaustive derivation search over grammar.y: about 1 ms
 
 
